@@ -51,6 +51,10 @@ pub struct Op {
     pub qs: Vec<(i64, i64, i64)>,
     #[serde(default)]
     pub lcs: Vec<LcSpec>,
+    /// open-stage admission: [label, bound] = the polynomial is handed to the prover declared with this
+    /// degree bound (-1 = none) instead of the one it was committed under
+    #[serde(default)]
+    pub obound: Vec<i64>,
     /// permutation (of commit order positions, 1-based) applied to the prover's lists
     #[serde(default)]
     pub pperm: Vec<i64>,
